@@ -182,4 +182,78 @@ Section ModWorld.
     - destruct e as [ci cn m dr| |]; cbn [ev_ok_mod]; try exact H1. cbn [ev_ok] in H1. destruct (is_mod m); [discriminate|reflexivity].
     - destruct (wstep burst w e) as [[w1 o]|]; [apply IH; exact H2|reflexivity].
   Qed.
+
+  (* ---- deciding the hypotheses on concrete states (used by the non-vacuity examples) *)
+  Definition tg_eqb (a b : module * list N) : bool := module_eqb (fst a) (fst b) && key_eqb (snd a) (snd b).
+  Lemma tg_eqb_eq a b : tg_eqb a b = true <-> a = b.
+  Proof.
+    unfold tg_eqb. destruct a as [m k], b as [m' k']. cbn [fst snd]. rewrite andb_true_iff, module_eqb_eq, key_eqb_eq.
+    split; [intros [-> ->]; reflexivity|intros H; inversion H; split; reflexivity].
+  Qed.
+  Fixpoint nodup_tgb (l : list (module * list N)) : bool :=
+    match l with [] => true | x :: r => negb (existsb (tg_eqb x) r) && nodup_tgb r end.
+  Lemma nodup_tgb_spec l : nodup_tgb l = true -> NoDup l.
+  Proof.
+    induction l as [|x l IH]; intros H; [constructor|]. cbn [nodup_tgb] in H. apply andb_true_iff in H. destruct H as [H1 H2].
+    constructor; [|apply IH; exact H2]. intros Hin.
+    assert (existsb (tg_eqb x) l = true) as A by (apply existsb_exists; exists x; split; [exact Hin|apply tg_eqb_eq; reflexivity]).
+    rewrite A in H1. discriminate.
+  Qed.
+
+  Lemma image_nodup_within : forall ss s, NoDup (map tg (image burst ss)) -> In s ss -> NoDup (map tg (session_cmds burst s)).
+  Proof.
+    induction ss as [|x ss IH]; intros s Hn Hs; [destruct Hs|]. cbn [image flat_map] in Hn. rewrite map_app in Hn.
+    destruct (nodup_app_split _ _ Hn) as (A & B & _). destruct Hs as [<-|Hs]; [exact A|apply IH; assumption].
+  Qed.
+  Lemma image_nodup_across : forall ss s1 s2, NoDup (map tg (image burst ss)) -> In s1 ss -> In s2 ss -> s_lseid s1 <> s_lseid s2 ->
+    disjoint_from (session_cmds burst s1) (session_cmds burst s2).
+  Proof.
+    induction ss as [|x ss IH]; intros s1 s2 Hn H1 H2 Hne; [destruct H1|]. cbn [image flat_map] in Hn. rewrite map_app in Hn.
+    destruct (nodup_app_split _ _ Hn) as (A & B & C). fold (image burst ss) in *.
+    assert (forall s, In s ss -> disjoint_from (session_cmds burst x) (session_cmds burst s)) as Hx.
+    { intros s Hs a b Ha Hb. apply hits_false_tg. intros Eq. apply (C (tg a)); [apply in_map; exact Ha|].
+      rewrite Eq. apply in_map. apply in_image. exists s. split; assumption. }
+    destruct H1 as [<-|H1], H2 as [<-|H2].
+    - exfalso. apply Hne. reflexivity.
+    - apply Hx. exact H2.
+    - intros a b Ha Hb. rewrite hits_sym. apply (Hx s1 H1); assumption.
+    - apply IH; assumption.
+  Qed.
+
+  Definition envelope_b (w : world) : bool :=
+    nodupb (map fst (w_conns w)) && nodupb (map s_lseid (all_sessions w)) && nodup_tgb (map tg (image burst (all_sessions w))).
+  Lemma envelope_b_spec w : envelope_b w = true -> envelope burst w.
+  Proof.
+    unfold envelope_b. intros H. apply andb_true_iff in H. destruct H as [H H3]. apply andb_true_iff in H. destruct H as [H1 H2].
+    apply nodupb_spec in H1, H2. apply nodup_tgb_spec in H3. constructor.
+    - exact H1.
+    - exact H2.
+    - intros s Hs. apply nodup_distinct_keys. eapply image_nodup_within; eauto.
+    - intros s1 s2 A B Hne. eapply image_nodup_across; eauto.
+  Qed.
+  Definition alloc_backed_b (w : world) : bool :=
+    forallb (fun s => negb (existsb (fun p => p_alloc p && (p_iface p =? CORE)) (view (s_pdrs s))) || pool_holds (a_pool (w_agent w)) (s_lseid s))
+            (all_sessions w).
+  Lemma alloc_backed_b_spec w : alloc_backed_b w = true -> alloc_backed w.
+  Proof.
+    unfold alloc_backed_b, alloc_backed. intros H s Hs He. pose proof (proj1 (forallb_forall _ _) H s Hs) as A. cbn beta in A.
+    rewrite He in A. exact A.
+  Qed.
+  Lemma states_ok_b w es :
+    forallb (fun x => envelope_b x && alloc_backed_b x) (states burst w es) = true ->
+    forall x, In x (states burst w es) -> envelope burst x /\ alloc_backed x.
+  Proof.
+    intros H x Hx. pose proof (proj1 (forallb_forall _ _) H x Hx) as A. cbn beta in A. apply andb_true_iff in A. destruct A as [A B].
+    split; [apply envelope_b_spec; exact A|apply alloc_backed_b_spec; exact B].
+  Qed.
+
+  (* what a history answers and emits, event by event (for the examples) *)
+  Fixpoint wtrace (w : world) (es : list wevent) : list (option reply * list marker) :=
+    match es with
+    | [] => []
+    | e :: r => match wstep burst w e with
+                | Done (w', o) => (o_reply o, o_markers o) :: wtrace w' r
+                | Crash _ => []
+                end
+    end.
 End ModWorld.
